@@ -10,7 +10,7 @@ for l in open(sys.argv[1]):
     k = (d["key"], m)
     c[k] += 1
     if k not in ex:
-        ex[k] = (t["act"], t["pre"], det.get("failures", det.get("clauses")))
+        ex[k] = (t["act"], t.get("pre", t.get("c")), det.get("failures", det.get("clauses")))
 for k, n in c.most_common():
     a, pre, fails = ex[k]
     print(n, k[0], "|", k[1])
